@@ -108,6 +108,54 @@ def remap_term(t, lmap, bmap):
     return out
 
 
+def specialise_default(facts, tgt, ce):
+    """A provided trait method called on a receiver of known local type (`self.tiered_len()` in an
+    inherent method of IndexList, Tiered being a private helper trait): inside the provided body
+    the calls of the trait's other methods are on `Self`; with the receiver's type known they are
+    the methods of that type's impl.  Returns a copy of the body in which those calls are
+    resolved (under its own key), or the body itself when there is nothing to do."""
+    if not (tgt.get("owner") or {}).get("in_trait"):
+        return tgt
+    st = ce.get("self_ty") or {}
+    adt = st.get("adt")
+    if not adt:
+        return tgt
+    trait = (tgt["owner"]["in_trait"] or "").split("::")[-1]
+    changed = False
+    blocks = []
+    for b in tgt["blocks"]:
+        t = b["term"]
+        c2 = t.get("callee") if t["k"] == "call" else None
+        if c2 and c2.get("local") and c2.get("kind") == "AssocFn" and not c2.get("resolved") and \
+                (c2.get("trait") or "").split("::")[-1] == trait and \
+                (c2.get("self_ty") or {}).get("k") == "param" and (c2.get("self_ty") or {}).get("s") == "Self":
+            impl_body = None
+            for ob in facts.raw_bodies.values():
+                ow = ob.get("owner") or {}
+                if ob["kind"] == "AssocFn" and ob["name"] == c2["name"] and \
+                        (ow.get("trait") or "").split("::")[-1] == trait and \
+                        (ow.get("impl_self") or {}).get("adt") == adt:
+                    impl_body = ob
+            nc = dict(c2)
+            nc["self_ty"] = st
+            if impl_body is not None:
+                nc["resolved"] = {"local": True, "key": impl_body["key"]}
+            nt = dict(t)
+            nt["callee"] = nc
+            nb = dict(b)
+            nb["term"] = nt
+            blocks.append(nb)
+            changed = True
+        else:
+            blocks.append(b)
+    if not changed:
+        return tgt
+    out = dict(tgt)
+    out["blocks"] = blocks
+    out["key"] = tgt["key"] + "@" + adt
+    return out
+
+
 def inline_body(facts, d, memo, stack=(), depth=0):
     """returns a (possibly new) body dict with inlinable helper calls spliced in"""
     key = d["key"]
@@ -133,6 +181,7 @@ def inline_body(facts, d, memo, stack=(), depth=0):
     new_locals = list(d["locals"])
     inlined = []
     for (i, tgt) in sites:
+        tgt = specialise_default(facts, tgt, new_blocks[i]["term"].get("callee") or {})
         callee = inline_body(facts, tgt, memo, stack + (key,), depth + 1)
         L0 = len(new_locals)
         B0 = len(new_blocks)
@@ -177,6 +226,7 @@ def inline_body(facts, d, memo, stack=(), depth=0):
                          "term": {"k": "goto", "target": B0, "line": t.get("line"), "exp": t.get("exp", False),
                                   "inlined_call": {"callee": t["callee"]["path"], "line": t.get("line")}}}
         inlined.append(tgt["path"])
+        inlined.extend(x for x in callee.get("inlined", []) if x not in inlined)
     new["blocks"] = new_blocks
     new["locals"] = new_locals
     new["inlined"] = inlined + list(d.get("inlined", []))
